@@ -16,7 +16,7 @@ RULE = (
     "unoptimized query. non-trivial = simplify needed >= 2 passes; distinct by program hash"
 )
 ASSUMPTIONS = c01.ASSUMPTIONS + ["names of queries containing dask.delayed sources are not compared across rebuilds (delayed keys are random by design)"]
-BUDGET_S = {"quick": 170, "thorough": 3000}
+BUDGET_S = {"quick": 170, "thorough": 900}
 # multi-input operators whose operands may be optimized independently of each other
 FREE_OPERANDS = {"bcast_scalar", "scalar_binop", "merge", "merge_lr", "merge_leftsemi", "join_list", "concat0"}
 
